@@ -1,4 +1,4 @@
-\* generated by mkstorecfg.py - C14: ways to halt x reorg points x continuation
+\* generated by mkstorecfg.py - C14: ways to halt x reorg points (also failing reorgs) x continuation
 CONSTANTS
   Kind = "bridge"
   Fixed = TRUE
@@ -7,7 +7,7 @@ CONSTANTS
   MaxEvents = 2
   MaxLeaves = 5
   MaxOps = 6
-  Faults = {}
+  Faults = {"reorg"}
   AllowGap = TRUE
   AllowRestart = TRUE
   AllowReorg = TRUE
